@@ -1033,7 +1033,9 @@ func c20TxTerm(r *ctypes.ResultTx) string {
 var c20TxKinds = []string{"honest", "honest", "honest-noprove", "forged-noprove", "body-forged", "body-and-hash-forged",
 	"proof-of-other-tx", "hash-forged", "index-forged", "height-forged", "result-forged", "root-forged", "data-forged",
 	"aunt-forged", "aunt-dropped", "proof-index", "proof-total", "last-leaf-relabelled", "height-zero", "height-beyond",
-	"foreign-block-proof", "whole-answer-other-tx", "index-relabelled", "index-relabelled"}
+	"foreign-block-proof", "whole-answer-other-tx", "index-relabelled", "index-relabelled",
+	"index-wide-2^32", "index-wide-2^32-exact", "index-wide-2^32-true-index", "index-wide-2^31", "index-wide-2^33", "index-wide-2^40", "index-wide-2^62",
+	"index-plus-2^32-same-total", "index-total-max-int64", "index-negative"}
 
 // Known finding F41.  An RFC-6962 inclusion proof fixes only the left/right shape of the path,
 // and the same shape occurs under other (index, total) pairs: every relabelling of the genuine
@@ -1053,6 +1055,37 @@ func c20Relabellings(txs types.Txs, i int) (out []merkle.Proof) {
 		}
 	}
 	return
+}
+
+// Relabellings far outside the tree.  The split point of a tree of 2^k + m leaves (1 <= m <= 2^k) is 2^k,
+// so for a leaf i of the RIGHT half of the n-leaf tree (i >= s = split point of n) the genuine aunts also
+// verify, against the same root, under index 2^k + (i-s), total 2^k + (n-s), for every k with n-s <= 2^k:
+// the proof's int64 index then exceeds what ResultTx.Index (uint32) can hold (k >= 32), or looks negative
+// as an int32 (k = 31).  ok = false when i is in the left half.
+func c20WideRelabelling(txs types.Txs, i int, k uint) (merkle.Proof, bool) {
+	n := int64(len(txs))
+	s := int64(1)
+	for s*2 < n {
+		s *= 2
+	}
+	if n < 2 || int64(i) < s {
+		return merkle.Proof{}, false
+	}
+	p := txs.Proof(i)
+	q := merkle.Proof{Total: int64(1)<<k + (n - s), Index: int64(1)<<k + (int64(i) - s), LeafHash: p.Proof.LeafHash, Aunts: p.Proof.Aunts}
+	return q, q.Verify(p.RootHash, txs[i].Hash()) == nil
+}
+
+// the answer for transaction i (right half) of block h behind such a proof; Index = the low 32 bits of the proof's index
+func (c *c20Chain) wideTx(h int64, i int, k uint) *ctypes.ResultTx {
+	res := c20Wire(c.honestTx(h, i))
+	q, ok := c20WideRelabelling(c.blocks[h-1].Data.Txs, i, k)
+	if !ok {
+		panic(fmt.Sprintf("c20: no wide relabelling for tx %d of block %d (2^%d)", i, h, k))
+	}
+	res.Proof.Proof = q
+	res.Index = uint32(q.Index)
+	return res
 }
 
 // the honest answer for transaction i of block h with Index and the proof's (Index, Total)
@@ -1106,10 +1139,39 @@ func c20TxCases(t *testing.T, cs *vg.Cases, c *c20Chain, r *vg.Rand) {
 				}
 			}
 		}
+		wide := map[string]uint{"index-wide-2^32": 32, "index-wide-2^32-exact": 32, "index-wide-2^32-true-index": 32, "index-wide-2^31": 31,
+			"index-wide-2^33": 33, "index-wide-2^40": 40, "index-wide-2^62": 62}
+		if strings.HasPrefix(kind, "index-") && kind != "index-forged" && kind != "index-relabelled" {
+			// block 2 has 3..5 transactions: split point 2 (or 4), right half = [split, n)
+			h = 2
+			txs = c.blocks[1].Data.Txs
+			split := 2
+			if len(txs) > 4 {
+				split = 4
+			}
+			i = split + rr.Intn(len(txs)-split)
+			if kind == "index-wide-2^32-exact" { // the first leaf of the right half: proof index exactly 2^32, relayed Index 0
+				i = split
+			}
+		}
 		res := c20Wire(c.honestTx(h, i))
 		prove := true
 		honest := kind == "honest"
 		switch kind {
+		case "index-wide-2^32", "index-wide-2^32-exact", "index-wide-2^31", "index-wide-2^33", "index-wide-2^40", "index-wide-2^62":
+			// 2^31: Index = 2^31 + (i-s) fits a uint32 and equals the proof's index: the class of F41
+			res = c.wideTx(h, i, wide[kind])
+		case "index-wide-2^32-true-index": // the wide proof next to the TRUE position
+			res = c.wideTx(h, i, 32)
+			res.Index = uint32(i)
+		case "index-plus-2^32-same-total": // index beyond the stated total: no root can be computed
+			res.Proof.Proof.Index += 1 << 32
+		case "index-total-max-int64":
+			res.Proof.Proof.Total = 1<<63 - 1
+			res.Proof.Proof.Index = 1<<63 - 2
+			res.Index = uint32(res.Proof.Proof.Index & 0xffffffff)
+		case "index-negative": // a negative proof index whose low 32 bits are the true position
+			res.Proof.Proof.Index = int64(i) - 1<<32
 		case "index-relabelled":
 			res, _ = c.relabelledTx(h, i, rr)
 		case "honest-noprove":
@@ -1214,7 +1276,7 @@ func c20TxCases(t *testing.T, cs *vg.Cases, c *c20Chain, r *vg.Rand) {
 var c20SearchKinds = []string{"honest", "honest-one-block", "honest-empty", "honest-noprove", "forged-noprove", "body-forged",
 	"body-and-hash-forged", "hash-forged", "index-forged", "proof-of-other-tx", "height-forged", "height-zero", "height-beyond",
 	"aunt-forged", "data-forged", "nil-entry", "last-forged", "result-forged", "total-count-forged", "result-dropped",
-	"results-reordered", "index-relabelled"}
+	"results-reordered", "index-relabelled", "index-wide-2^32", "index-wide-2^31", "index-wide-2^40"}
 
 func c20SearchCases(t *testing.T, cs *vg.Cases, c *c20Chain, r *vg.Rand) {
 	var withTxs []int64
@@ -1313,6 +1375,13 @@ func c20SearchCases(t *testing.T, cs *vg.Cases, c *c20Chain, r *vg.Rand) {
 			res.Txs = append(res.Txs[:pick:pick], res.Txs[pick+1:]...)
 		case "results-reordered":
 			res.Txs[0], res.Txs[len(res.Txs)-1] = res.Txs[len(res.Txs)-1], res.Txs[0]
+		case "index-wide-2^32", "index-wide-2^31", "index-wide-2^40": // see c20WideRelabelling; one result (of block 2's right half) forged
+			for j, w := range where {
+				if _, ok := c20WideRelabelling(c.blocks[w.h-1].Data.Txs, w.i, 32); ok && w.h == 2 {
+					res.Txs[j], pick = c.wideTx(w.h, w.i, map[string]uint{"index-wide-2^32": 32, "index-wide-2^31": 31, "index-wide-2^40": 40}[kind]), j
+					break
+				}
+			}
 		case "index-relabelled": // known finding F41, through TxSearch
 			for j, w := range where {
 				if x, ok := c.relabelledTx(w.h, w.i, rr); ok {
